@@ -18,7 +18,7 @@ Fixpoint zassoc (c : Z) (l : list (Z * Z)) : option Z :=
 Definition zmem (c : Z) (l : list Z) : bool := existsb (Z.eqb c) l.
 
 Definition P_todao (alts : list (Z * Z)) : params :=
-  mkParams (fun c => match zassoc c alts with Some m => m | None => c end) (fun _ => None) false.
+  mkParams (fun c => match zassoc c alts with Some m => m | None => c end) (fun _ => None) false true.
 
 Definition to_dao (alts : list (Z * Z)) (l : lheap) (r : addr) : option (addr * st) :=
   walk (P_todao alts) (heap_of l) (S (length l)) r st0.
